@@ -4,7 +4,10 @@ import (
 	"fmt"
 	"math/rand"
 	"sort"
+	"strings"
 	"sync"
+
+	"github.com/evolbioinfo/gotree/io/newick"
 
 	"github.com/evolbioinfo/gotree/tree"
 	"github.com/fredericlemoine/gostats"
@@ -111,6 +114,44 @@ func c16Consumed(rawv []int64) int {
 		}
 	}
 	return -1
+}
+
+// c16SameAsText: the tree written as Newick and read back is indexed from scratch; every branch of the
+// generated tree must be the same bipartition (Edge.SameBipartition: hash codes + bitsets) as one of its branches
+func c16SameAsText(t *tree.Tree, obs *Sexp) {
+	defer func() {
+		if r := recover(); r != nil {
+			obs.List = append(obs.List, KV("sametext", A(fmt.Sprintf("panic: %v", r))))
+		}
+	}()
+	t2, err := newick.NewParser(strings.NewReader(t.Newick())).Parse()
+	if err != nil {
+		obs.List = append(obs.List, KV("sametext", A("unreadable: "+err.Error())))
+		return
+	}
+	if err = t2.ReinitIndexes(); err != nil {
+		obs.List = append(obs.List, KV("sametext", A("reindex: "+err.Error())))
+		return
+	}
+	if err = t.CompareTipIndexes(t2); err != nil {
+		obs.List = append(obs.List, KV("sametext", A("tip indexes differ: "+err.Error())))
+		return
+	}
+	missing := 0
+	e2s := t2.Edges()
+	for _, e := range t.Edges() {
+		found := false
+		for _, e2 := range e2s {
+			if e.SameBipartition(e2) {
+				found = true
+				break
+			}
+		}
+		if !found {
+			missing++
+		}
+	}
+	obs.List = append(obs.List, KV("sametext", A(fmt.Sprintf("%d", missing))))
 }
 
 func c16Indexes(t *tree.Tree, obs *Sexp) {
@@ -314,6 +355,12 @@ func c16(c *Sexp) *Sexp {
 			t, err = tree.StarTree(n)
 		case "starnames":
 			t, err = tree.StarTreeFromName(c.StrList("names")...)
+		case "starfromtree":
+			var src *tree.Tree
+			src, err = BuildTree(c.Get("tree"))
+			if err == nil {
+				t, err = tree.StarTreeFromTree(src)
+			}
 		default:
 			panicmsg = "unknown generator"
 		}
@@ -327,6 +374,7 @@ func c16(c *Sexp) *Sexp {
 		d, audit := ObserveTree(t)
 		obs.List = append(obs.List, KV("hastree", B(true)), KV("tree", d), KV("audit", audit))
 		c16Indexes(t, obs)
+		c16SameAsText(t, obs)
 	} else {
 		obs.List = append(obs.List, KV("hastree", B(false)))
 	}
